@@ -75,6 +75,21 @@ func (mls *MetaLeaseSet) Verify() error {
 func (mls *MetaLeaseSet) signingPublicKeyForVerification() (types.SigningPublicKey, error) {
 	if mls.HasOfflineKeys() && mls.offlineSignature != nil {
 		// Use transient signing public key from offline signature
+		// The transient key is only trusted if the offline signature block was itself
+		// signed by the destination's long-term key; without this check anyone could
+		// attach a self-made transient key. Fails closed for destination key types whose
+		// offline signatures cannot be verified.
+		destKey, err := mls.destination.SigningPublicKey()
+		if err != nil {
+			return nil, oops.Errorf("failed to get signing public key from Destination: %w", err)
+		}
+		ok, err := mls.offlineSignature.VerifySignature(destKey.Bytes())
+		if err != nil {
+			return nil, oops.Errorf("failed to verify offline signature: %w", err)
+		}
+		if !ok {
+			return nil, oops.Errorf("offline signature is not valid under the destination's signing key")
+		}
 		transientKeyBytes := mls.offlineSignature.TransientPublicKey()
 		transientSigType := mls.offlineSignature.TransientSigType()
 		spk, err := key_certificate.ConstructSigningPublicKeyByType(transientKeyBytes, int(transientSigType))
